@@ -178,7 +178,48 @@ fn mk(cfg: &RunCfg) -> Box<dyn Oracle> {
     Box::new(C20 { guarded: cfg.guards.contains("guarded"), ..Default::default() })
 }
 
+/// Story: a burst of commits inside one second takes a client on persistent storage past epoch
+/// 10 (snapshot names then differ in the number of digits of the epoch); the client restarts and
+/// applies one more commit: the snapshots kept must still be those of the most recent commits.
+fn burst_story(gn: &mut Gen, w: &mut World) -> Option<Step> {
+    if w.groups.is_empty() || w.probes.contains_key("commit_burst_past_epoch_10_then_restart_story") || gn.rng().chance(2, 3) {
+        return None;
+    }
+    let g = 0usize;
+    let n = w.nodes.len();
+    let admins: Vec<usize> = (0..n).filter(|a| w.is_admin(*a, g) && w.is_active_member(*a, g) && !w.has_pending_commit(*a, g)).collect();
+    let a = *admins.first()?;
+    let xs: Vec<usize> = (0..n).filter(|x| *x != a && w.nodes[*x].cfg.backend.is_sqlite() && w.is_active_member(*x, g) && !w.has_pending_commit(*x, g) && w.node_state(*x, g) == w.node_state(a, g)).collect();
+    let x = *gn.rng().pick(&xs)?;
+    let epoch = w.node_state(a, g).map(|s| s.0).unwrap_or(1);
+    let k = (11u64.saturating_sub(epoch)).clamp(2, 12) as u32 + gn.rng().below(2) as u32;
+    let first = gn.mk(w, a, 1, Op::UpdateData { g, variant: 0, arg: 800 });
+    let mut q = vec![gn.mk(w, a, 0, Op::MergePending { g }), gn.mk(w, x, 0, Op::Deliver { ev: EvRef(first.id, 0) })];
+    for i in 1..k {
+        let up = gn.mk(w, a, 0, Op::UpdateData { g, variant: (i % 2) as u8, arg: 800 + i });
+        let c = EvRef(up.id, 0);
+        q.push(up);
+        q.push(gn.mk(w, a, 0, Op::MergePending { g }));
+        q.push(gn.mk(w, x, 0, Op::Deliver { ev: c }));
+    }
+    q.push(gn.mk(w, x, 0, Op::Restart));
+    let up = gn.mk(w, a, 0, Op::UpdateData { g, variant: 1, arg: 899 });
+    let c = EvRef(up.id, 0);
+    q.push(up);
+    q.push(gn.mk(w, a, 0, Op::MergePending { g }));
+    q.push(gn.mk(w, x, 0, Op::Deliver { ev: c }));
+    for st in q {
+        gn.queue.push_back(st);
+    }
+    w.probe("commit_burst_past_epoch_10_then_restart_story");
+    Some(first)
+}
+
 fn commit_heavy(g: &mut Gen) {
+    if g.cfg.nodes.iter().any(|n| n.backend.is_sqlite()) {
+        g.hostile_hook = Some(burst_story);
+        g.cfg.weights.hostile = g.cfg.weights.hostile.max(1);
+    }
     g.cfg.weights.commit += 3;
     g.cfg.weights.fork += 2;
     g.cfg.weights.msg = g.cfg.weights.msg.min(2);
